@@ -10,7 +10,7 @@
 (***************************************************************************)
 EXTENDS KsMatch, Json
 
-CONSTANTS T0, MaxTicks, Deep
+CONSTANTS T0, MaxTicks, Groups
 
 VARIABLES st, now, out
 vars == <<st, now, out>>
@@ -21,19 +21,26 @@ B(i) == IntToBytes(i)
 va == <<97>>  vb == <<98>>
 ExpOpts == {<<>>, <<L_nx>>, <<L_xx>>, <<L_gt>>, <<L_lt>>}
 
+\* command groups: "str" string + deadline commands on kk; "strdeep" RENAME / MSET / INCR with the second key; "list" a list
+\* key; "agg" a hash, a set and a sorted set key. The product of all groups is too large for one instance (and TLC's disk
+\* state queue cannot serialise some of the nested function values: the instances run with the in-memory queue), so the
+\* thorough tier runs {"str","strdeep","list"} and {"list","agg"} as two instances.
 Cmds ==
+  (IF "str" \in Groups THEN
        {<<L_set, kk, va>>, <<L_set, kk, vb, L_keepttl>>, <<L_set, kk, va, L_ex, B(1)>>, <<L_set, kk, va, L_ex, B(2)>>,
         <<L_set, kk, va, L_px, B(1500)>>, <<L_set, kk, va, L_xx, L_ex, B(1)>>, <<L_set, kk, vb, L_nx>>, <<L_setex, kk, B(1), va>>,
         <<L_set, kk, va, L_exat, <<1>>>>, <<L_set, kk, va, L_ex, B(0)>>}      \* EXAT argument <<1>> is a placeholder: the driver sends now+1
   \cup {<<L_expire, kk, B(n)>> \o o : n \in {1, 2, 0, -1}, o \in ExpOpts}    \* non-positive times with options too: a vetoed one must change nothing (seed C06-r3)
   \cup {<<L_persist, kk>>, <<L_ttl, kk>>, <<L_get, kk>>, <<L_exists, kk>>, <<L_del, kk>>, <<L_strlen, kk>>, <<L_type, kk>>, <<L_keys, L_star>>,
         <<L_append, kk, vb>>, <<L_setnx, kk, vb>>, <<L_getrange, kk, B(0), B(-1)>>, <<L_mget, kk, k2>>}
-  \cup (IF Deep THEN {<<L_rename, kk, k2>>, <<L_rename, k2, kk>>, <<L_ttl, k2>>, <<L_get, k2>>, <<L_mset, kk, va, k2, vb>>, <<L_incr, kk>>} ELSE {})
-  \cup {<<L_rpush, lk, va>>, <<L_expire, lk, B(1)>>, <<L_llen, lk>>, <<L_lrange, lk, B(0), B(-1)>>, <<L_lpush, lk, vb>>, <<L_lpop, lk>>, <<L_ttl, lk>>}
-  \cup (IF Deep THEN
+   ELSE {<<L_keys, L_star>>})
+  \cup (IF "strdeep" \in Groups THEN {<<L_rename, kk, k2>>, <<L_rename, k2, kk>>, <<L_ttl, k2>>, <<L_get, k2>>, <<L_mset, kk, va, k2, vb>>, <<L_incr, kk>>} ELSE {})
+  \cup (IF "list" \in Groups THEN {<<L_rpush, lk, va>>, <<L_expire, lk, B(1)>>, <<L_llen, lk>>, <<L_lrange, lk, B(0), B(-1)>>, <<L_lpush, lk, vb>>, <<L_lpop, lk>>, <<L_ttl, lk>>} ELSE {})
+  \cup (IF "agg" \in Groups THEN
          {<<L_hset, hk, va, vb>>, <<L_expire, hk, B(1)>>, <<L_hget, hk, va>>, <<L_hlen, hk>>, <<L_hdel, hk, va>>, <<L_hset, hk, vb, va>>,
           <<L_sadd, sk, va>>, <<L_expire, sk, B(1)>>, <<L_scard, sk>>, <<L_smembers, sk>>, <<L_sadd, sk, vb>>, <<L_srem, sk, va>>,
-          <<L_zadd, zk, B(1), va>>, <<L_expire, zk, B(1)>>, <<L_zrange, zk, B(0), B(-1)>>, <<L_zrank, zk, va>>, <<L_zadd, zk, B(2), vb>>, <<L_zrem, zk, va>>}
+          <<L_zadd, zk, B(1), va>>, <<L_expire, zk, B(1)>>, <<L_zrange, zk, B(0), B(-1)>>, <<L_zrank, zk, va>>, <<L_zadd, zk, B(2), vb>>, <<L_zrem, zk, va>>,
+          <<L_expire, hk, B(2), L_gt>>, <<L_persist, zk>>, <<L_ttl, sk>>}
         ELSE {})
 
 \* the EXAT placeholder is instantiated with now + 1 in the model as well
